@@ -634,7 +634,36 @@ fn gen_build(r: &mut Rng, w: &mut dyn Write, hdr: &mut dyn FnMut(&mut dyn Write,
         }
         _ => {
             func = 2;
-            if r.chance(1, 2) {
+            if r.chance(1, 3) {
+                // WRITE of analog dead-bands (`DeadBandHeader::group34_*`), one to three headers, a header with
+                // no item at all included (S111: its count octet(s) must still be written)
+                for _ in 0..r.range(1, 3) {
+                    let v = r.range(1, 3) as u8;
+                    let size = ref_size(34, v).unwrap();
+                    let wide = r.chance(1, 2);
+                    let n = if r.chance(1, 4) { 0 } else { r.range(1, 5) as usize };
+                    let mut items = Vec::new();
+                    let mut h: u64 = 0xcbf29ce484222325;
+                    let mut first = None;
+                    let mut last = 0u16;
+                    for _ in 0..n {
+                        let idx: u16 = if wide { *r.pick(&[0u16, 1, 255, 256, 65535, 1000]) } else { r.below(256) as u16 };
+                        let val = r.bytes(size);
+                        let mut it = if wide { idx.to_le_bytes().to_vec() } else { vec![idx as u8] };
+                        it.extend(&val);
+                        fnv(&mut h, &it);
+                        items.extend(&it);
+                        if first.is_none() { first = Some(idx); }
+                        last = idx;
+                    }
+                    toks.push(format!("{}:{v}:{}", if wide { "db16" } else { "db8" }, hex(&items)));
+                    if n > 0 {
+                        built.push(format!("@built 34 {v} {} {n} {n} {} {last} {:016x}", if wide { 40 } else { 23 }, first.unwrap(), h));
+                    } else {
+                        built.push(format!("@built 34 {v} {} 0 0 - - -", if wide { 40 } else { 23 }));
+                    }
+                }
+            } else if r.chance(1, 2) {
                 toks.push("cr".to_string());
                 let mut h: u64 = 0xcbf29ce484222325;
                 fnv(&mut h, &[7, 0, 0]);
@@ -683,6 +712,22 @@ fn parse_build_hdr(tok: &str) -> Option<probe::BuildHdr> {
             probe::BuildHdr::Commands(g, v, wide, items)
         }
         "one" => probe::BuildHdr::TimeOne(n(1)? as u8, n(2)? as u8, unhex(p.get(3)?)),
+        "db8" | "db16" => {
+            let wide = p[0] == "db16";
+            let v = n(1)? as u8;
+            let size = ref_size(34, v)?;
+            let raw = unhex(p.get(2)?);
+            let isz = if wide { 2 } else { 1 };
+            let mut items = Vec::new();
+            for c in raw.chunks(isz + size) {
+                if c.len() != isz + size {
+                    return None;
+                }
+                let idx = if wide { u16::from_le_bytes([c[0], c[1]]) } else { c[0] as u16 };
+                items.push((idx, c[isz..].to_vec()));
+            }
+            probe::BuildHdr::DeadBands(v, wide, items)
+        }
         _ => return None,
     })
 }
@@ -925,6 +970,16 @@ pub fn run(ops: &str, out: &mut dyn Write, mon: &mut dyn Write) {
                                                 inexpressible = true;
                                             }
                                             if n == 0 { 0 } else { 3 + isz + raw }
+                                        }
+                                        "db8" | "db16" => {
+                                            // a dead-band header is written even when it has no item
+                                            let isz = if p[0] == "db16" { 2 } else { 1 };
+                                            let size = ref_size(34, p[1].parse().unwrap()).unwrap_or(0);
+                                            let raw = unhex(p[2]).len();
+                                            if raw / (isz + size) > (if isz == 2 { 65535 } else { 255 }) {
+                                                inexpressible = true;
+                                            }
+                                            3 + isz + raw
                                         }
                                         _ => 0,
                                     };
